@@ -254,6 +254,17 @@ def check_case(res, t, spec, key, before=None, replaying=False):
         res.violation("unequal:%s" % name, "spec %r parses to %r, not equal to the DSL-built %r" % (spec, parsed, built),
                       case, observed=repr(parsed), expected=repr(built))
         return
+    # the same spec object parsed once more (what a YAML anchor used in two places amounts to) means the same
+    res.count("transitions")
+    try:
+        parsed2 = ConditionLike.from_spec(sp)
+        same2 = type(parsed2) is type(built) and parsed2 == built and built == parsed2
+    except BaseException as e:
+        parsed2, same2 = repr(e), False
+    if not same2:
+        res.violation("second-parse:%s" % name, "spec %r parsed a second time (same object) gives %r, not the DSL-built %r"
+                      % (spec, parsed2, built), case, observed=repr(parsed2), expected=repr(built))
+        return
     kinds = T.cond_kinds(t)
     docs = []
     if "index" not in kinds:
